@@ -215,6 +215,10 @@ func objstoreReplay(args []string) error {
 						bad("has/wrong", st.Found, ok, fmt.Sprint(err))
 					}
 				case "deldir":
+					// no object has that name: Has says so even when the name is a prefix ("directory") of stored keys
+					if ok, err := s.Has(ctx, key); err != nil || ok {
+						bad("has/prefix-is-not-an-object", false, ok, fmt.Sprintf("Has(%q): %v", key, err))
+					}
 					// whatever the call answers, nothing may be lost
 					_ = s.Delete(ctx, key)
 					exp := make([]string, 0, len(st.Items))
